@@ -14,8 +14,12 @@ def with_replay(params, replay_path):
     p = dict(params)
     if replay_path:
         info = json.load(open(replay_path))["info"]
-        evs = [e for e in info["events"] if e["ev"] != "reset"]
-        p["extra_behaviours"] = [evs]
+        if info.get("case"):
+            p["replay_case"] = info["case"]
+            p["extra_behaviours"] = []
+        else:
+            evs = [e for e in info["events"] if e["ev"] != "reset"]
+            p["extra_behaviours"] = [evs]
         p["setup"] = info.get("setup", p["setup"])
         p["quick_cfgs"] = p["thorough_cfgs"] = []
     return p
